@@ -1,5 +1,6 @@
 CONSTANTS
   Types <- TypesAll
-  MaxSet = 4
+  MaxSet = 3
+  FormsAll = TRUE
 SPECIFICATION FSpec
 CHECK_DEADLOCK FALSE
